@@ -8,6 +8,22 @@ NA = [
  ("C10", "pure function composition render/parse/render; nothing for a simulator to vary (DESIGN.md section 5)"),
 ]
 CHECKS = {
+ "C07": ("fault_enumeration", "5/C07",
+   "The finite product TLS policy x auth configuration x host kind x adversarial server/TLS behaviour x AUTH offer x TLS version is enumerated for DialAndSend; a byte-exact tap of everything the client wrote decides what went out in clear (commands under mandatory TLS, the password in every encoding), the server's view inside TLS decides whether anything was sent after an unverifiable certificate.",
+   "Trusted: the tap, the TLS-record scanner, crypto/tls, the simulator PKI. Implicit TLS only through a TLS-wrapping dial function (go-mail's own tls.Dialer path needs a real socket).",
+   "deterministic simulation: enumerated adversarial server/TLS behaviours, byte-exact cleartext tap"),
+ "C14": ("exploration", "5/C14",
+   "Seeded search over credentials (specials, non-ASCII, control characters), salts, iteration counts, nonces, challenges and TLS versions against independent reference SASL verifiers validated on the RFC vectors; acceptance must coincide with credential equality, and client nonces must be pairwise distinct under a deterministic crypto/rand, including a retry on the same Auth value.",
+   "Trusted: reference SASL servers (own implementations, crypto/pbkdf2), byte-wise credential comparison on code points where SASLprep and PRECIS agree.",
+   "deterministic simulation: seeded credential/parameter search against reference verifiers, seeded crypto/rand for nonce freshness"),
+ "C15": ("fault_enumeration", "5/C15",
+   "Every server message sequence of length <= 4 (thorough: 5) over the property's 11-symbol alphabet is played by a scripted SCRAM adversary against all four mechanism variants (PLUS over real TLS); success requires a valid server-first and server-final in the running exchange, and an invalid server-final must never be acknowledged nor an invalid server-first answered with a proof.",
+   "Trusted: the adversary's bookkeeping of which messages are valid for the running exchange; the reference SCRAM computation. Two known findings (bare 235 accepted) are listed in known_findings.json.",
+   "deterministic simulation: exhaustive protocol tree of adversarial server messages"),
+ "C16": ("exploration", "5/C16",
+   "Seeded search over auth type x 14 server scripts (success, refusal at each step, malformed/extra challenges, disconnect, stall to timeout) x logger kind with high-entropy credentials; every log record and formatted logger output is scanned for every encoding of the secret and for the SASL lines the server actually received; a control group with auth-data logging on proves the scan can see them; the post-auth MAIL FROM must appear.",
+   "Trusted: the list of searched encodings (raw, base64 variants, hex, exact SASL lines); JSON output is also decoded field by field.",
+   "deterministic simulation: seeded server failure scripts during AUTH, log capture and secret scan with control group"),
  "C09": ("exploration", "5/C09",
    "Seeded search over stored EMLs (builder renderings, repository fixtures, random bytes) damaged by storage faults at token-biased offsets and read back through fault-injecting readers or the string/file entry points; every parse is monitored for panics and for termination. Sampling of an unbounded input space, not proof.",
    "Trusted: the mutation engine and reader; termination judged by a 10 s wall-clock watchdog (re-checked once).",
